@@ -7,8 +7,9 @@ Lemma list_eqb_spec {A} (eqb : A -> A -> bool) :
 Proof.
   intros H a; induction a as [|x a IH]; intros [|y b]; cbn; split; intro E;
     try reflexivity; try discriminate.
-  - apply andb_true_iff in E as [E1 E2]. apply H in E1. apply IH in E2. congruence.
-  - injection E as -> ->. apply andb_true_iff; split; [apply H | apply IH]; reflexivity.
+  - destruct (eqb x y) eqn:E1; [|discriminate]. apply H in E1. apply IH in E. congruence.
+  - injection E as -> ->. assert (E1 : eqb y y = true) by (apply H; reflexivity).
+    rewrite E1. apply IH. reflexivity.
 Qed.
 
 Lemma str_eqb_eq a b : str_eqb a b = true <-> a = b.
